@@ -409,7 +409,10 @@ def remove_bitstring(string, expect_unused=_sentry):
 
 def unpem(pem):
     if isinstance(pem, text_type):  # pragma: no branch
-        pem = pem.encode()
+        try:
+            pem = pem.encode()
+        except UnicodeError as e:
+            raise UnexpectedDER("PEM text can not be encoded: %s" % e)
 
     d = b("").join(
         [
